@@ -48,20 +48,21 @@ Theorem C17_resume_covers : forall ev s n,
 Proof. exact resume_covers. Qed.
 Print Assumptions C17_resume_covers.
 
-(* an event the relayer cannot turn into a claim hides no other: the iteration submits every translatable event of the
-   range, whatever stands before it in its block or range, and nothing but translatable events of those blocks *)
-Theorem C17_untranslatable_hide_nothing : forall tr raw s n,
+(* an event the relayer cannot turn into a claim hides no other: the iteration hands every burn / lock event of the range
+   to handleEthereumEvent, and the claims made of them hold every translatable one, whatever stands before it in its block
+   or range, and nothing else *)
+Theorem C17_untranslatable_hide_nothing : forall tr ev s n,
   r_pc s = Idle -> 0 < r_cursor s -> r_cursor s <= n - TRAILING ->
-  let s' := run (translatable_events tr raw) s [Head n true; Tick; Tick] in
+  let s' := run ev s [Head n true; Tick; Tick] in
   r_persisted s' = n - TRAILING + 1 /\
-  (forall b e, r_cursor s <= b <= n - TRAILING -> In e (raw b) -> tr e = true -> In (b, e) (r_submitted s')) /\
-  (forall b e, In (b, e) (r_submitted s') -> In (b, e) (r_submitted s) \/ (In e (raw b) /\ tr e = true)).
+  (forall b e, r_cursor s <= b <= n - TRAILING -> In e (ev b) -> tr e = true -> In (b, e) (handle_events tr (r_submitted s'))) /\
+  (forall b e, In (b, e) (handle_events tr (r_submitted s')) -> tr e = true /\ In (b, e) (r_submitted s')).
 Proof. exact untranslatable_hide_nothing. Qed.
 Print Assumptions C17_untranslatable_hide_nothing.
 Example C17_untranslatable_example :
-  let raw := fun b => if b =? 112 then [11200] else if b =? 113 then [11350; 11301] else if b =? 114 then [11400] else [] in
-  let s := run (translatable_events (fun n => n mod 100 <? 50) raw) init [Head 160 true; Head 165 true; Tick; Tick] in
-  r_persisted s = 116 /\ r_submitted s = [(112, 11200); (113, 11301); (114, 11400)].
+  let ev := fun b => if b =? 112 then [11200] else if b =? 113 then [11350; 11301] else if b =? 114 then [11400] else [] in
+  let s := run ev init [Head 160 true; Head 165 true; Tick; Tick] in
+  r_persisted s = 116 /\ handle_events (fun n => n mod 100 <? 50) (r_submitted s) = [(112, 11200); (113, 11301); (114, 11400)].
 Proof. vm_compute. split; reflexivity. Qed.
 
 Theorem C17_submitted_grows : forall ev s i x, In x (r_submitted s) -> In x (r_submitted (step ev s i)).
